@@ -782,6 +782,60 @@ def freshAnswer (sigs : List (Name × Gen.Sig)) (c : Content) (q : Query) : Exce
     answer c cache q
   else answer c default q
 
+/-! ### the public surface of `class Model` that is not a mutator -/
+
+/-- the public method a query form stands for (the harness calls exactly this one) -/
+def Query.entry : Query → String
+  | .init => "get_initial_conditions"
+  | .pvals => "get_parameter_values"
+  | .classes => "get_derived_parameter_names"
+  | .args .. => "get_args"
+  | .rhs .. => "get_right_hand_side"
+  | .fluxes .. => "get_fluxes"
+  | .call .. => "__call__"
+  | .stoich .. => "get_stoichiometries"
+  | .stoichvar .. => "get_stoichiometries_of_variable"
+  | .names .vars => "get_variable_names"
+  | .names .pars => "get_parameter_names"
+  | .names .rxns => "get_reaction_names"
+  | .names .readouts => "get_readout_names"
+  | .names (.surOuts _) => "get_surrogate_output_names"
+  | .names .surRxns => "get_surrogate_reaction_names"
+  | .names .unusedPars => "get_unused_parameters"
+  | .names .rawVars => "get_raw_variables"
+  | .names .rawPars => "get_raw_parameters"
+  | .names .rawDerived => "get_raw_derived"
+  | .names .rawRxns => "get_raw_reactions"
+  | .names .rawReadouts => "get_raw_readouts"
+  | .names .rawSurs => "get_raw_surrogates"
+  | .argNames _ => "get_arg_names"
+  | .rawStoich _ => "get_raw_stoichiometries_of_variable"
+  | .argsTC .. => "get_args_time_course"
+  | .fluxesTC _ => "get_fluxes_time_course"
+  | .rhsTC _ => "get_right_hand_side_time_course"
+  | .eqFresh => "__eq__"
+
+/-- every public reader the model answers: the entry points of the query forms, `ids` (observed after every op),
+    the second half of `.classes`, and the two dict-returning forms the `…_names` getters are `list(…)` of -/
+def modelledEntries : List String :=
+  [ "ids", "get_initial_conditions", "get_parameter_values", "get_derived_parameter_names",
+    "get_derived_variable_names", "get_derived_parameters", "get_derived_variables", "get_args", "get_right_hand_side",
+    "get_fluxes", "__call__", "get_stoichiometries", "get_stoichiometries_of_variable", "get_variable_names",
+    "get_parameter_names", "get_reaction_names", "get_readout_names", "get_surrogate_output_names",
+    "get_surrogate_reaction_names", "get_unused_parameters", "get_raw_variables", "get_raw_parameters",
+    "get_raw_derived", "get_raw_reactions", "get_raw_readouts", "get_raw_surrogates", "get_arg_names",
+    "get_raw_stoichiometries_of_variable", "get_args_time_course", "get_fluxes_time_course",
+    "get_right_hand_side_time_course", "__eq__" ]
+
+/-- public readers the model does NOT answer, each with the reason -/
+def outOfScope : List (String × String) :=
+  [ ("__repr__", "wadler_lindig pretty printer over the dataclass fields; runtime"),
+    ("parameters", "TableView (markdown / LaTeX through sympy) of the container; runtime"),
+    ("variables", "TableView of the container; runtime"),
+    ("derived", "TableView of the container; runtime"),
+    ("reactions", "TableView of the container; runtime"),
+    ("check_units", "sympy unit algebra; reads the containers and get_stoichiometries_of_variable (modelled)") ]
+
 /-! ### histories -/
 
 /-- the component names for which a call passes a function object (initial assignment, derived quantity,
